@@ -38,7 +38,10 @@ CONSTS = """  Impl = "%(impl)s"
   Kinds = %(kinds)s
   TimeoutCfgs = %(tcfgs)s
 """
-ALLKINDS = '{"closed", "lost", "won", "other", "xclosed", "created"}'
+ALLKINDS = '{"closed", "lost", "won", "other", "xclosed", "created", "xowner", "xownerp", "xdseq"}'
+# the exhaustive quick export keeps one foreign-lease kind per code path (xowner is the collision that matters);
+# the others are in the thorough export, the simulation and the random driver
+QUICKKINDS = '{"closed", "lost", "won", "other", "xclosed", "created", "xowner"}'
 
 
 def cfg_text(spec, invariants, props=(), **kw):
@@ -417,7 +420,7 @@ def run(pid, tier, seed, replay):
     thorough = tier == "thorough"
     # ---- J1 / export, in parallel -------------------------------------------------------------------
     free_kw = dict(maxfail=2, maxign=2, maxq=2, prices="{1, 45, 46, 47}") if thorough else {}
-    quiet_kw = dict(quiet="TRUE", record="TRUE", maxq=1, kinds=ALLKINDS, tcfgs="{TRUE}")
+    quiet_kw = dict(quiet="TRUE", record="TRUE", maxq=1, kinds=ALLKINDS if thorough else QUICKKINDS, tcfgs="{TRUE}")
     if thorough:
         quiet_kw.update(maxfail=2, maxign=2, prices="{1, 45, 46, 47}")
     sim_kw = dict(quiet="TRUE", record="TRUE", maxq=1, kinds=ALLKINDS, tcfgs="{TRUE, FALSE}", maxfail=4, maxign=3,
